@@ -163,7 +163,7 @@ func (t *Tester) run(testFile string) (*TestResult, error) {
 					i.Debugger = d
 
 					// Skip this testsuite when marked as @skip or @tag matched
-					if metadata.Skip || metadata.MatchTags(t.config.Tags) {
+					if metadata.Skip || (len(metadata.Tags) > 0 && !metadata.MatchTags(t.config.Tags)) {
 						cases = append(cases, &TestCase{
 							Name:  metadata.Name,
 							Scope: s.String(),
@@ -247,7 +247,7 @@ func (t *Tester) runDescribedTests(
 			i.Debugger = debugger
 
 			// Skip this testsuite when marked as @skip or @tag matched
-			if metadata.Skip || metadata.MatchTags(t.config.Tags) {
+			if metadata.Skip || (len(metadata.Tags) > 0 && !metadata.MatchTags(t.config.Tags)) {
 				cases = append(cases, &TestCase{
 					Name:  metadata.Name,
 					Scope: s.String(),
